@@ -346,13 +346,22 @@ class SymScorer(Scorer):
         return self._n()
 
 
+STABLE = [True]
+
+
 def stream(vals, depth=0, rml=1.0, timeout=0):
     old = (C._match_regex, PP.global_rules)
     C._match_regex = fake_match_regex
     PP.global_rules = mk_rules()
     try:
-        return [(p.resolution.v, p.production, p.score, (p.resolution.mstart, p.resolution.mend))
-                for p in C._ctparse(TXT, TS, timeout, rml, depth, SymScorer(vals))]
+        held, snaps = [], []
+        for p in C._ctparse(TXT, TS, timeout, rml, depth, SymScorer(vals)):
+            held.append(p)
+            snaps.append((p.resolution.v, p.production, p.score, (p.resolution.mstart, p.resolution.mend)))
+        # a candidate does not change after it has been yielded
+        after = [(p.resolution.v, p.production, p.score, (p.resolution.mstart, p.resolution.mend)) for p in held]
+        STABLE[0] = all(a[0] == b[0] and a[1] == b[1] and a[3] == b[3] and a[2] is b[2] for a, b in zip(snaps, after)) and len({id(p) for p in held}) == len(held)
+        return snaps
     finally:
         C._match_regex, PP.global_rules = old
 
@@ -424,6 +433,8 @@ def ob_stream(v0: int, v1: int, v2: int, v3: int, v4: int, v5: int) -> bool:
     """
     vals = [v0, v1, v2, v3, v4, v5][:NSYM]
     out = stream(vals, DEPTH)
+    if not STABLE[0]:
+        return False
     got = {o[0] for o in out}
     if not got <= DERIVABLE:
         return False
@@ -482,6 +493,8 @@ def ob_select(n: int, s0: float, s1: float, s2: float, s3: float, none_stream: b
     """
     scores = [s0, s1, s2, s3][:n]
     cands = [C.CTParse(Time(hour=i), (100 + i, "r"), s, "subj%d" % i, ["l%d" % i]) for i, s in enumerate(scores)]
+    for i, c in enumerate(cands):
+        c.resolution.mstart, c.resolution.mend = 0, 1 + (i * 3) % 4      # candidates of different span lengths
     stream_ = [None] if (none_stream and n == 0) else cands
     old = C.ctparse_gen
     C.ctparse_gen = lambda *a, **k: iter(stream_)
@@ -591,3 +604,30 @@ def ob_span_trim(a: int, ti: int) -> bool:
     core = text.rstrip()
     # the span starts where the match starts and ends with the last non-blank character
     return m.mstart == a and m.mend == a + len(core) and m.mend > m.mstart and not text[m.mend - a - 1].isspace()
+
+
+# ------------------------------------------------------------------ PREFILTER history (C15 / C12)
+
+def ob_filter_hist(a0: int, a1: int, a2: int, b0: int, b1: int, b2: int) -> bool:
+    """
+    pre: 0 <= a0 <= 1 and 0 <= a1 <= 1 and 0 <= a2 <= 1 and 0 <= b0 <= 1 and 0 <= b1 <= 1 and 0 <= b2 <= 1
+    post: _
+    """
+    # two initial sequences analysed one after the other (same ids possibly in another order):
+    # the applicable rules of the second are what a fresh analysis of it gives
+    reg = mk_rules()
+    reg["r5"] = (reg["r3"][0], [RU.regex_match(100), RU.dimension(A), RU.regex_match(101)])
+    reg["r6"] = (reg["r3"][0], [RU.regex_match(101), RU.dimension(A)])
+    old = PP.global_rules
+    PP.global_rules = reg
+    try:
+        s1 = tuple(_frm(100 + v, 2 * i, 2 * i + 1) for i, v in enumerate((a0, a1, a2)))
+        s2 = tuple(_frm(100 + v, 2 * i, 2 * i + 1) for i, v in enumerate((b0, b1, b2)))
+        PP.PartialParse.from_regex_matches(s1)
+        pp2 = PP.PartialParse.from_regex_matches(s2)
+        fresh = PP.PartialParse(s2, tuple(m.id for m in s2))._filter_rules(reg)
+        need = {name for name, (w, pats) in reg.items()
+                if _embeddable([m.id - 100 for m in s2], [p.__closure__[0].cell_contents - 100 if p.__name__ == "_regex_match" else None for p in pats])}
+    finally:
+        PP.global_rules = old
+    return set(pp2.applicable_rules) == set(fresh) and need <= set(pp2.applicable_rules)
